@@ -530,14 +530,32 @@ def gen_cond(draw, assign):
 
 
 @st.composite
-def gen_group(draw, assign, kind, depth_left):
+def gen_group(draw, assign, kind, depth_left, pool=None):
+    """`pool`: the conditions of the expression so far - a later condition may be the twin of an earlier one that
+    differs only in a raw/calibrated selector (or only in the operator), anywhere in the expression"""
+    pool = [] if pool is None else pool
     nconds = draw(st.integers(0, 3))
     nsubs = draw(st.integers(0, 2)) if depth_left > 1 else 0
     if nconds + nsubs == 0:
         nconds = 1
     other = "or" if kind == "and" else "and"
-    return {"t": kind, "conds": [draw(gen_cond(assign)) for _ in range(nconds)],
-            "subs": [draw(gen_group(assign, other, depth_left - 1)) for _ in range(nsubs)]}
+    conds = []
+    for _ in range(nconds):
+        if pool and draw(st.integers(0, 3)) == 0:
+            c = dict(draw(st.sampled_from(pool)))
+            which = draw(st.sampled_from(["lcal", "lcal", "rcal", "op"]))
+            if which == "rcal" and c["right"] is None:
+                which = "lcal"
+            if which == "op":
+                c["op"] = draw(st.sampled_from(sorted(crit.SPELLINGS)))
+            else:
+                c[which] = not c[which]
+        else:
+            c = draw(gen_cond(assign))
+        pool.append(c)
+        conds.append(c)
+    return {"t": kind, "conds": conds,
+            "subs": [draw(gen_group(assign, other, depth_left - 1, pool)) for _ in range(nsubs)]}
 
 
 @st.composite
